@@ -36,12 +36,12 @@ RULE = ("(a) cases: (line sequence chunk, configuration); one execution per data
 ASSUMPTIONS = ["finite value alphabets", "output paths are always fresh (the library prompts before overwriting)"]
 REQUIRED_CLASSES = ['ineligible-line-skipped', 'all-eligible', 'selector-cuts', 'without-model-fluxes', 'with-model-fluxes', 'mode-2d', 'mode-3d', 'format-v2', 'history-depth-2',
                     'form-path', 'form-object', 'form-list', 'op-plot', 'op-filter_output', 'op-write_parameters', 'op-write_parameter_ranges', 'op-extract_parameters',
-                    'nan-inf-record-roundtrip', 'longer-file', 'law-in-other-unit', 'op-plot_params_1d', 'op-plot_params_2d']
+                    'nan-inf-record-roundtrip', 'longer-file', 'law-in-other-unit', 'op-plot_params_1d', 'op-plot_params_2d', 'op-plot-convolved', 'no-trailing-newline', 'selector-keeps-nothing']
 TIMEOUT = {'quick': 900, 'thorough': 3600}
 
 KINDS = {'A': (1, 1, 1), 'B': (1, 4, 3), 'C': (1, 0, 9), 'D': (0, 2, 3)}
 B3 = ['B1', 'B3', 'B5']
-AXES_A = {'n_data_min': [2, 1, 3], 'sel': [('A', 0), ('N', 2), ('F', 3.0)], 'conv': [True, False], 'fmt': ['v1', 'v2'], 'mode': ['2d', '3d'], 'law': ['power', 'nonmono@nm']}
+AXES_A = {'n_data_min': [2, 1, 3], 'sel': [('A', 0), ('N', 2), ('F', 3.0), ('N', 0), ('C', 1e-6)], 'conv': [True, False], 'fmt': ['v1', 'v2'], 'mode': ['2d', '3d'], 'law': ['power', 'nonmono@nm']}
 SELS_B = [('N', 1), ('N', 3), ('A', 0), ('F', 2.0)]
 
 
@@ -60,7 +60,7 @@ def setup(tier, seed):
     depth = 2 if tier == 'quick' else 3
     for fmt in ('v2',):
         for n_src in (1, 3):
-            for first in range(18):
+            for first in range(19):
                 out.append({'part': 'b', 'fmt': fmt, 'n_src': n_src, 'first_op': first, 'depth': depth})
     out.append({'part': 'c'})
     for n_src in (1, 3):
@@ -154,7 +154,10 @@ def _part_a(ctx, case, rec, d):
             continue
         data = os.path.join(d, 'data_%d.txt' % si)
         with open(data, 'w') as fh:
-            fh.write('\n'.join(lines) + '\n')
+            # the last line of a data file may or may not end with a newline
+            fh.write('\n'.join(lines) + ('\n' if si % 2 == 0 else ''))
+        if si % 2:
+            rec.cls('no-trailing-newline')
         out = os.path.join(d, 'out_%d.fitinfo' % si)
         sub = {'lines': seq}
         try:
@@ -192,6 +195,8 @@ def _part_a(ctx, case, rec, d):
             e.keep(sel)
             if len(e.chi2) < n_before:
                 rec.cls('selector-cuts')
+            if len(e.chi2) == 0:
+                rec.cls('selector-keeps-nothing')
             if canon(_strip(r)) != canon(_strip(e)):
                 what = [nm for nm, a, b in zip(('source', 'av', 'sc', 'chi2', 'model_id', 'model_name', 'model_fluxes'), _strip(r), _strip(e)) if canon(a) != canon(b)]
                 bad = 'record of %s differs from Fitter.fit + keep%r in %s' % (s.name, sel, what)
@@ -215,6 +220,7 @@ def _ops():
     for fn in ('write_parameters', 'write_parameter_ranges', 'extract_parameters', 'plot'):
         for s in SELS_B:
             ops.append((fn, s))
+    ops.append(('plot-convolved', ('N', 2)))
     ops.append(('filter_output', ('chi', None)))
     ops.append(('filter_output', ('cpd', None)))
     return ops
@@ -240,6 +246,9 @@ def _run_op(op, arg, d, tag, thr):
         return [(os.path.basename(p)[len(tag) + 4:], open(p).read()) for p in sorted(glob.glob(pre + '*'))]
     if fn == 'plot':
         figs = sedfitter.plot(arg, output_dir=None, select_format=tuple(sel))
+        return {k: [np.asarray(sg) for sg in v['lines'].get_segments()] if 'lines' in v else None for k, v in figs.items()}
+    if fn == 'plot-convolved':
+        figs = sedfitter.plot(arg, output_dir=None, select_format=tuple(sel), show_convolved=True)
         return {k: [np.asarray(sg) for sg in v['lines'].get_segments()] if 'lines' in v else None for k, v in figs.items()}
     if fn == 'filter_output':
         good, bad = os.path.join(d, tag + '.good'), os.path.join(d, tag + '.bad')
